@@ -374,6 +374,16 @@ func atomStringRaw(a Atom) string {
 			if !pol {
 				op = negOp[op]
 			}
+			if nonNegative(b.X) {
+				if k, isC := ConstInt(b.Y); isC {
+					switch {
+					case k == 0 && op == token.NEQ, k == 1 && op == token.GEQ:
+						return Desc(b.X) + " > 0"
+					case k == 0 && op == token.LEQ, k == 1 && op == token.LSS:
+						return Desc(b.X) + " == 0"
+					}
+				}
+			}
 			x, y := Desc(b.X), Desc(b.Y)
 			// constants to the right
 			if _, ok := b.X.(*ssa.Const); ok {
@@ -1035,4 +1045,24 @@ func readOnlyAddr(v ssa.Value, depth int) bool {
 		}
 	}
 	return true
+}
+
+// nonNegative: v is a length/size-like quantity (len, cap, Len(), Buffered(), Available(), Size()).
+func nonNegative(v ssa.Value) bool {
+	c, ok := v.(*ssa.Call)
+	if !ok {
+		return false
+	}
+	switch CallBuiltin(c) {
+	case "len", "cap":
+		return true
+	}
+	if f := CalleeFunc(c); f != nil {
+		switch f.Name() {
+		case "Len", "Cap", "Buffered", "Available", "Size", "Count", "NumAttrs":
+			sig := f.Type().(*types.Signature)
+			return sig.Params().Len() == 0 && sig.Results().Len() == 1
+		}
+	}
+	return false
 }
